@@ -179,6 +179,13 @@ impl SizeHeader {
             return Err(SizeError::InvalidEsizeWidth(h.esize_bytes));
         }
 
+        // V2 stores total_size in 5 bytes
+        if let Self::V2(h) = self
+            && h.total_size > 0xFF_FFFF_FFFF
+        {
+            return Err(SizeError::TotalSizeTooLarge(h.total_size));
+        }
+
         Ok(())
     }
 }
